@@ -143,14 +143,14 @@ def reference(events):
             parts = ["<", name]
             seen = set()
             for a, v in attrs:
-                if v is None:
-                    wf.append(False)
-                    v = ""
-                else:
-                    wf.append(b_not(contains(v, '"')))
                 if a in seen:
                     wf.append(False)
                 seen.add(a)
+                if v is None:
+                    # an attribute without a value (`<input disabled>`) is well-formed HTML and is written bare
+                    parts += [" ", a]
+                    continue
+                wf.append(b_not(contains(v, '"')))
                 parts += [" ", a, '="', v, '"']
             if kind == "startend":
                 parts.append("/>")
@@ -364,7 +364,7 @@ def setup_text():
     TM.update(mods)
 
 
-def make_text(eng, spec):
+def make_text(eng, spec, exact=False):
     setup_text()
     ph = TM["myst_parser.parsers.parse_html"]
     cps = []
@@ -394,6 +394,8 @@ def make_text(eng, spec):
             out = root.render()
         except Exception as exc:  # noqa
             eng.fail("render-raises", "%s: %s" % (type(exc).__name__, exc))
+        if exact:
+            eng.require(_eq(out, text), "unterminated-text-lost", "the rendered tree differs from the input")
         if len(seen) > 1:
             eng.note("roundtrip")
         return len(seen)
@@ -464,6 +466,9 @@ def families(tier, seed):
     F.append(Family("text/sequence", make_text_sequence, "an unterminated text from %r, then a well-formed text of 3 pieces: round trip of the second call" % (POISON,), args=dict(k=3), nontrivial="roundtrip", max_forks=20000))
     tpl = [("attr", ["<a ", (3, 'c="x '), ">t</a>"]), ("tag", ["<", (3, "ab/ >"), "x"]), ("ref", ["a&", (3, "#x1a;"), "b"]), ("comment", ["<!", (3, "-a>"), "-->"]),
            ("close", ["<a><b>", (4, "</ab>"), ""]), ("marked", ["a<![", (3, "CDi[ ]>1"), "]]>b"]), ("decl", ["<!", (3, "D[a ->"), ">t"])]
+    F.append(Family("text/unterminated", make_text, "real html.parser on 'x<b>y</b> ' + 3 symbolic chars over '</!-a#?' (a tag, comment or declaration that is still open at the end of the text): nothing is lost, the tree renders the input exactly "
+                    "(an unfinished '&ref' is outside: the standard library drops its '&' on close)",
+                    args=dict(spec=["x<b>y</b> ", (3, "</!-a#?")], exact=True), nontrivial=None, max_forks=20000))
     for name, spec in tpl:
         F.append(Family("text/%s" % name, make_text, "real html.parser on template %r" % ("".join(s if isinstance(s, str) else "<%d:%s>" % s for s in spec),),
                         args=dict(spec=spec), nontrivial=None, required=False, max_forks=20000))
@@ -491,6 +496,11 @@ class _Fail(Exception):
 
 
 def replay(label, witness):
+    if label == "unterminated-text-lost" and "text" in witness:
+        import myst_parser.parsers.parse_html as real_
+
+        out = real_.tokenize_html(witness["text"]).render()
+        return None if out == witness["text"] else ("C16/unterminated-text-lost", "tokenize_html(%r).render() == %r" % (witness["text"], out))
     import myst_parser.parsers.parse_html as real
 
     if "poison" in witness:
